@@ -214,7 +214,7 @@ def identity_un(S, cfg, ty, ovr, depth=0):
         return not cfg["gen"]          # BaseConverter registers no hook for heterogeneous tuples
     if k == "td":
         if not cfg["gen"]:
-            return True
+            return False               # a BaseConverter treats the class as a mapping: fresh dict
         if any(c == ty[1] for (c, _n) in (ovr or {})):
             return False
         return depth < 30 and all(identity_un(S, cfg, f["ty"] or "any", ovr, depth + 1)
@@ -276,6 +276,8 @@ def allowed_un(S, cfg, ty, o, ovr, extras):
                     out |= allowed_un(S, cfg, f["ty"], getattr(o, f["name"]), ovr, extras)
         return out
     if k == "td":
+        if not cfg["gen"]:
+            return allowed_un_any(S, cfg, o, ovr, extras)
         if isinstance(o, dict):
             declared = set()
             for f, _key, omit in td_keys(w, ty[1], ovr):
